@@ -77,22 +77,26 @@ class Workspace(object):
             self._macros = mm
         return self._macros
 
-    def compile_unit(self, path, out, defs, extra=()):
+    def compile_unit(self, path, out, defs, extra=(), mem2reg=True):
         cxx = path.endswith(".cpp") or path.endswith(".cc")
         cc = ["clang++-14", "-std=gnu++11"] if cxx else ["clang-14", "-std=gnu90"]
         cmd = cc + ["-I" + self.dir, "-I" + self.src] + list(defs) + list(extra) + [
             "-O0", "-Xclang", "-disable-O0-optnone", "-fno-discard-value-names", "-g", "-w",
             "-S", "-emit-llvm", path, "-o", out + ".raw.ll"]
         _run(cmd)
-        _run(["opt-14", "-passes=mem2reg", "-S", out + ".raw.ll", "-o", out])
-        os.unlink(out + ".raw.ll")
+        if mem2reg:
+            _run(["opt-14", "-passes=mem2reg", "-S", out + ".raw.ll", "-o", out])
+            os.unlink(out + ".raw.ll")
+        else:
+            os.rename(out + ".raw.ll", out)
         return out
 
     def model(self, config):
         if config in self.models:
             return self.models[config]
         t0 = time.time()
-        units, _, defs = CONFIGS[config]
+        raw = config.endswith("-raw")
+        units, _, defs = CONFIGS[config[:-4] if raw else config]
         self.bison()
         outs = []
         jobs = []
@@ -100,7 +104,7 @@ class Workspace(object):
             for u in units:
                 out = os.path.join(self.dir, "%s.%s.ll" % (config, u.replace(".", "_")))
                 outs.append(out)
-                jobs.append(ex.submit(self.compile_unit, os.path.join(self.src, u), out, defs))
+                jobs.append(ex.submit(self.compile_unit, os.path.join(self.src, u), out, defs, (), not raw))
             for j in jobs:
                 j.result()
         js = os.path.join(self.dir, config + ".json")
